@@ -107,12 +107,22 @@ mod worker {
         }
     }
 
-    fn expand(def: &str, want_code: bool) -> Value {
+    fn expand(def: &str, want_code: bool, twice: bool) -> Value {
         let ts = match proc_macro2::TokenStream::from_str(def) {
             Ok(ts) => ts,
             Err(e) => return json!({"status": "lex_error", "msg": e.to_string()}),
         };
+        let ts2 = ts.clone();
         let r = catch_unwind(AssertUnwindSafe(|| super::lexer(ts).to_string()));
+        if twice {
+            // determinism within one process: expand the same tokens again
+            let r2 = catch_unwind(AssertUnwindSafe(|| super::lexer(ts2).to_string()));
+            if let (Ok(a), Ok(b)) = (&r, &r2) {
+                if a != b {
+                    return json!({"status": "nondeterministic", "msg": format!("two expansions in one process differ: {} vs {} bytes", a.len(), b.len())});
+                }
+            }
+        }
         match r {
             Ok(code) => {
                 if code.contains("compile_error") {
@@ -139,7 +149,7 @@ mod worker {
             let req: Value = serde_json::from_str(&line).expect("json");
             let def = req["def"].as_str().unwrap_or("");
             let resp = match req["op"].as_str() {
-                Some("expand") => expand(def, req["code"].as_bool().unwrap_or(false)),
+                Some("expand") => expand(def, req["code"].as_bool().unwrap_or(false), req["twice"].as_bool().unwrap_or(false)),
                 Some("parse") => parse(def),
                 _ => json!({"status": "bad_request"}),
             };
